@@ -444,6 +444,9 @@ class MinMaxAggregator:
         if not any(map(self._translatable_element, agg.atom.elements)):
             return [rule]  # nocoverage, #issue9
 
+        if not all(elem.terms for elem in agg.atom.elements):
+            return [rule]  # an element with an empty tuple has no value to chain
+
         if agg.atom.left_guard is None:
             return [rule]
 
@@ -684,6 +687,8 @@ class MinMaxAggregator:
         new list of elements
         """
         term_tuple = elem.terms
+        if not term_tuple:
+            return [elem]  # empty tuple, no weight to replace
         # split condition into the max predicate + translation and the rest
         old_max, minmaxpred, rest_cond = self._split_element(term_tuple[0].location, elem, rest_elems)
         if minmaxpred is None or old_max is None:
